@@ -85,6 +85,11 @@ CHECKS = {
    technique="the same TLA+ semantics (FoSem.tla) and trace validation (FoSemTrace.tla) as C01, with the generator restricted to the tinyfo subset and the binary built from tinyfo/; every program is also transpiled by fc and the two recorded traces are compared",
    text="Seeded random programs of the tinyfo subset (annotated functions, + - comparisons && ||, if/elif/else, one-line if, records, unions with match, slices through variables, pairs and destructuring, pipes, partial application, package_info calls with monomorphic probes) and the C01 kernels inside that subset are transpiled by tinyfo, compiled and run; TLC validates each recorded event trace against the semantics, and the trace of fc's translation of the same program must be identical.",
    note="Trusted: as C01; the subset is calibrated on the pinned tree (what tinyfo accepts: no lambdas, * /, interpolation, string match, inner functions, generic probes, slice literals as arguments, let right-hand side on the next line); tinyfo reads the frt/slice/strings sections of pkg_all.foi."),
+ "C03": dict(
+   category="model_checking", design_ref="4.3", engine="FoRepr/FoSem",
+   technique="TLA+ specification of the documented Go representation (FoRepr.tla: declaration -> Folang text and Go surface as compile-time assertions, enumerated by TLC) checked by the Go compiler against what the real fc emits; foreign calls as programs whose hand-written Go implementations record their arguments, traces validated by TLC against FoSem.tla (a foreign call records all arguments in source order)",
+   text="(A) TLC enumerates record / union (generic or not, payload mixes) / top-level function (unit parameter, unit result, function-, tuple-, slice-typed parameters) / variable declarations, derives the Folang text and the documented Go surface as compile-time assertions (struct conversion with exact field names, types and order; U_C{Value}, New_U_C func vs package var; exact func signatures); the declarations are transpiled by the real fc and the Go compiler decides every assertion. (B) package_info functions (package _ or named, arity 0-4, int/unit result, generic with the type parameter in first / last / result position and explicit type argument int/string/any) are called directly, through every partial application and piped; the Go implementations, generated from the declared signature only, log the arguments (and the type argument) they receive; TLC validates the recorded traces against the semantics.",
+   note="Trusted: Go compiler for the assertions; FoRepr.tla / FoSem.tla; a named package is provided as a package-level struct of functions (no import), generic foreign functions live in package _."),
 }
 
 def cmd(pid, tier):
